@@ -245,7 +245,13 @@ def classify(v):
     subj = v.get('subject') or []
     rs = v.get('rec_same') or {}
     same_subject = any(rs.get(i, rs.get(str(i), 0)) > 0 for i in subj)
-    if clause in ('orphan-not-collected', 'table-exact', 'zero-count-not-destroyed', 'not-destroyed', 'leak') and same_subject:
+    # the mechanism of the known same-handle finding acts when a handle is dropped (orphan test / group gutting); a wrong
+    # record right after adopt/unadopt or another call is a different mechanism even if a Loopback record is present
+    opi = v.get('op_index', -1)
+    ops_ = script.get('ops', [])
+    last_op = ops_[opi]['op'] if 0 <= opi < len(ops_) else ''
+    drop_like = last_op in ('drop', 'drop_extra', 'upgrade', 'dec_strong', 'drop_if', 'drop_any', 'catch', 'drop_value', 'wdrop', '')
+    if clause in ('orphan-not-collected', 'table-exact', 'zero-count-not-destroyed', 'not-destroyed', 'leak') and same_subject and drop_like:
         # the object (group) concerned has recorded an adoption of itself through the very same handle:
         # the Loopback record is never counted as an owned reference
         return 'same-handle-self-adoption-not-counted'
@@ -279,7 +285,7 @@ def items_C06(tier, seed, P):
                     ops += [{'op': 'strong_count', 'h': 'k%d' % a}]
             its.append(dict(prop='C06', name='%s identity drops=%s' % (nm, ''.join('%s%d' % q for q in seq)), script={'ops': ops}, sym=True, oracles={'C06'},
                             opts={'panics_ok': True}, layouts=[None]))
-    its += weak_api_items('C06', tier, seed, {'C06'})
+    its += weak_api_items('C06', tier, seed, {'C06'}) + api_items('C06', tier, seed, {'C06'}, opts={'panics_ok': True})
     # raw strong-count manipulation on members of a group
     for (n, e, nm) in [(2, [R(0, 1), R(1, 0)], 'ring2'), (2, [R(0, 1)], 'owner-target')]:
         for tgt in range(n):
@@ -351,7 +357,8 @@ OUTSIDE = ['N>4 objects', 'more than 2 parallel handles per ordered pair', 'allo
 
 def items_C01(tier, seed, P):
     o = {'panics_ok': True}
-    return graph_items('C01', tier, seed, {'C01'}, opts=o) + mult_items('C01', tier, seed, {'C01'}, opts=o) + history_items('C01', tier, seed, {'C01'}, opts=o)
+    return (graph_items('C01', tier, seed, {'C01'}, opts=o) + mult_items('C01', tier, seed, {'C01'}, opts=o) + history_items('C01', tier, seed, {'C01'}, opts=o)
+            + api_items('C01', tier, seed, {'C01'}, opts=o))
 
 
 PROPS['C01'] = dict(items=items_C01, bounds=BOUNDS_GRAPH, outside=OUTSIDE, vacuity=vac_paths('dtor', 'multi_destroy_ops'), replay_oracles=['C01'])
@@ -361,7 +368,7 @@ def items_C02(tier, seed, P):
     o = {'panics_ok': True}
     return (graph_items('C02', tier, seed, {'C02'}, opts=o, wextras=True, noop=True) + mult_items('C02', tier, seed, {'C02'}, opts=o, wextras=True)
             + history_items('C02', tier, seed, {'C02'}, opts=o) + weak_graph_items('C02', tier, seed, {'C02'}, opts=o, dtor_upgrades=False)
-            + weak_graph_items('C02', tier, seed, {'C02'}, opts=o, dtor_upgrades=False, one_weak=True))
+            + weak_graph_items('C02', tier, seed, {'C02'}, opts=o, dtor_upgrades=False, one_weak=True) + api_items('C02', tier, seed, {'C02'}, opts=o))
 
 
 PROPS['C02'] = dict(items=items_C02, bounds=BOUNDS_GRAPH, outside=OUTSIDE, vacuity=vac_paths('dtor', 'multi_destroy_ops'), replay_oracles=['C02'])
@@ -369,11 +376,27 @@ PROPS['C02'] = dict(items=items_C02, bounds=BOUNDS_GRAPH, outside=OUTSIDE, vacui
 
 def items_C03(tier, seed, P):
     its = graph_items('C03', tier, seed, {'C03'}, recorded_only=False) + mult_items('C03', tier, seed, {'C03'}) + history_items('C03', tier, seed, {'C03'})
+    # make_mut through an outside handle of a group member (value cloned into a fresh allocation, the old handle released
+    # inside make_mut): the recorded graph of the old object must still lead to its collection
+    R = lambda i, j: (i, j, True, False)
+    for (n, e, nm) in [(2, [R(0, 1), R(1, 0)], 'ring2'), (3, F.named_shapes(3)['ring3'], 'ring3'), (3, F.named_shapes(3)['ring2+leaf'], 'ring2+leaf'), (1, [(0, 0, True, False)], 'selfclone1')]:
+        for mode in ('unlinked', 'linked'):
+            for seq in F.drop_sequences(n, n)[:3]:
+                ops = F.build_ops(n, e, extras=True) + [{'op': 'clone_mode', 'mode': mode}]
+                done = False
+                for (kk, i) in seq:
+                    if not done and i == 0:
+                        ops.append({'op': 'make_mut', 'h': H(0)})
+                        done = True
+                    ops += F.drop_ops([(kk, i)])
+                its.append(dict(prop='C03', name='%s make_mut(%s clone) on 0 drops=%s' % (nm, mode, ''.join('%s%d' % q for q in seq)), script={'ops': ops}, sym=True,
+                                oracles={'C03'}, opts={'panics_ok': True}, layouts=std_layouts(n, tier, seed)[:2]))
     # a member destructor panics (caught): the orphaned group is still destroyed in full by that drop
     for it in panic_weak_items('C03', tier, seed):
         it['oracles'] = {'C03'}
         it['opts'] = {'panics_ok': True}
         its.append(it)
+    its += api_items('C03', tier, seed, {'C03'}, opts={'panics_ok': True})
     return its
 
 
@@ -383,7 +406,7 @@ PROPS['C03'] = dict(items=items_C03, bounds=BOUNDS_GRAPH, outside=OUTSIDE, vacui
 def items_C08(tier, seed, P):
     o = {'panics_ok': True}
     return (graph_items('C08', tier, seed, {'C08'}, opts=o, noop=True) + mult_items('C08', tier, seed, {'C08'}, opts=o) + history_items('C08', tier, seed, {'C08'}, opts=o)
-            + lemma_items('C08', ['linksremove']))
+            + lemma_items('C08', ['linksremove']) + api_items('C08', tier, seed, {'C08'}, opts=o))
 
 
 PROPS['C08'] = dict(items=items_C08, bounds=BOUNDS_GRAPH, outside=OUTSIDE, vacuity=vac_paths('dtor', 'multi_destroy_ops'), replay_oracles=['C08'])
@@ -934,14 +957,14 @@ def items_C12(tier, seed, P):
                         if 'weak' in an:
                             ops.append({'op': 'wdrop', 'w': 'wk'})
                         items.append(dict(prop='C12', name='%s %s on %d pre=%s then %s' % (nm, an, tgt, pre, perm), script={'ops': ops}, sym=True,
-                                          oracles={'C12', 'C08', 'C04'}, accept_props=['C12', 'C08', 'C04'], relabel=True, ub_prop='C12',
-                                          opts={'tables_exact': False, 'panics_ok': False, 'expect_all_freed': True}, layouts=std_layouts(n, tier, seed)[:2 if tier == 'quick' else 4]))
+                                          oracles={'C12', 'C08', 'C04', 'C03'}, accept_props=['C12', 'C08', 'C04', 'C03'], relabel=True, ub_prop='C12',
+                                          opts={'tables_exact': True, 'panics_ok': False, 'expect_all_freed': True}, layouts=std_layouts(n, tier, seed)[:2 if tier == 'quick' else 4]))
     return items
 
 
 PROPS['C12'] = dict(items=items_C12, bounds={'quick': {'shapes': 'owner/target, ring2, self-clone, chain3, ring3, ring2+tail', 'calls': 'try_unwrap (with/without Weak), make_mut (with/without Weak), get_mut, into_raw/from_raw, increment/decrement_strong_count on every object, optionally after dropping a neighbour; then the remaining handles are dropped in 2 orders', 'counters': 'extra strong and Weak handles per object symbolic 64-bit: z3 decides the strong==1 / weak==0 branches of try_unwrap, get_mut and make_mut'},
                                              'thorough': {'orders': 'all drop orders', 'layouts': 4}},
-                    outside=OUTSIDE, vacuity=vac_paths('dtor', 'try_unwrap:ok', 'try_unwrap:err', 'make_mut:cloned', 'make_mut:moved', 'make_mut:inplace', 'get_mut:some', 'get_mut:none'), replay_oracles=['C12', 'C08', 'C04'])
+                    outside=OUTSIDE, vacuity=vac_paths('dtor', 'try_unwrap:ok', 'try_unwrap:err', 'make_mut:cloned', 'make_mut:moved', 'make_mut:inplace', 'get_mut:some', 'get_mut:none'), replay_oracles=['C12', 'C08', 'C04', 'C03'])
 
 
 # ------------------------------------------------------------------ C14 pay-as-you-go
@@ -1132,10 +1155,10 @@ def history_items(prop, tier, seed, oracles, opts=None, accept=None, relabel=Fal
     every object is dropped (trace), then the named handles in every order"""
     items = []
     maxm = 2 if tier == 'quick' else 3
-    ctxs = ['pair', 'target-in-ring', 'owner-target-ring', 'self']
+    ctxs = ['pair', 'target-in-ring', 'owner-target-ring', 'self', 'self+loopback']
     for ctx in ctxs:
-        n = {'pair': 2, 'target-in-ring': 3, 'owner-target-ring': 2, 'self': 1}[ctx]
-        tgt = 0 if ctx == 'self' else 1
+        n = {'pair': 2, 'target-in-ring': 3, 'owner-target-ring': 2, 'self': 1, 'self+loopback': 1}[ctx]
+        tgt = 0 if ctx.startswith('self') else 1
         for m in range(1, maxm + 1):
             for u in range(0, m + 2):
                 for mode in ('remove', 'unadopt-only'):
@@ -1150,6 +1173,11 @@ def history_items(prop, tier, seed, oracles, opts=None, accept=None, relabel=Fal
                                 {'op': 'clone', 'h': H(1), 'as': 'r1'}, {'op': 'adopt', 'a': H(2), 'b': 'r1'}, {'op': 'store', 'via': H(2), 'h': 'r1'}]
                     if ctx == 'owner-target-ring':
                         ops += [{'op': 'clone', 'h': H(0), 'as': 'r0'}, {'op': 'adopt', 'a': H(1), 'b': 'r0'}, {'op': 'store', 'via': H(1), 'h': 'r0'}]
+                    if ctx == 'self+loopback':
+                        # upstream's no-effect same-handle adoption is outstanding while clone self adoptions come and go
+                        if prop in ('C01', 'C03'):
+                            continue
+                        ops += [{'op': 'adopt', 'a': H(0), 'b': H(0)}]
                     base_slots = 1 if ctx == 'target-in-ring' and tgt == 0 else 0
                     for k in range(m):
                         ops += [{'op': 'clone', 'h': H(tgt), 'as': 'a%d' % k}, {'op': 'adopt', 'a': H(0), 'b': 'a%d' % k}, {'op': 'store', 'via': H(0), 'h': 'a%d' % k}]
@@ -1601,4 +1629,41 @@ def weak_api_items(prop, tier, seed, oracles):
                     {'op': 'drop_all_wextras', 'obj': 0}, {'op': 'w_weak_count', 'w': 'wa'}, {'op': 'wdrop', 'w': 'wa'}]
             items.append(dict(prop=prop, name='weak-api %s %s' % (nm, variant), script={'ops': ops}, sym=True, oracles=set(oracles),
                               opts={'panics_ok': True, 'expect_all_freed': 'C04' in oracles}, layouts=[None, ('rank', tuple(range(n)), (0, 1, 2), 'obj', True)]))
+    return items
+
+
+# ------------------------------------------------------------------ handle-consuming / raw APIs injected into graph histories (all core oracles)
+def api_items(prop, tier, seed, oracles, opts=None):
+    """one API call on one object of a named shape, somewhere in the history, then the usual drops"""
+    items = []
+    apis = {
+        'make_mut': lambda h: [{'op': 'make_mut', 'h': h}],
+        'make_mut-unlinked': lambda h: [{'op': 'clone_mode', 'mode': 'unlinked'}, {'op': 'make_mut', 'h': h}],
+        'get_mut': lambda h: [{'op': 'get_mut', 'h': h}],
+        'raw-roundtrip': lambda h: [{'op': 'into_raw', 'h': h, 'as': 'rw'}, {'op': 'from_raw', 'r': 'rw', 'as': h}],
+        'inc-dec': lambda h: [{'op': 'as_ptr', 'h': h, 'as': 'rp'}, {'op': 'inc_strong', 'r': 'rp'}, {'op': 'dec_strong', 'r': 'rp'}],
+        'weak-raw': lambda h: [{'op': 'downgrade', 'h': h, 'as': 'wq'}, {'op': 'w_into_raw', 'w': 'wq', 'as': 'rq'}, {'op': 'w_from_raw', 'r': 'rq', 'as': 'wq'},
+                               {'op': 'upgrade', 'w': 'wq'}, {'op': 'wdrop', 'w': 'wq'}],
+    }
+    named = dict(F.named_shapes(2))
+    named.update(F.named_shapes(3))
+    pick = ['ring2', 'ring3', 'ring2+tail', 'owner-of-ring2', 'ring2+leaf', 'ring3+selfclone']
+    if tier != 'quick':
+        pick = sorted(named)
+    for nm in pick:
+        e = named[nm]
+        n = 1 + max(max(i, j) for (i, j, r, s) in e)
+        for tgt in range(n):
+            for an, mk in apis.items():
+                for when in (0, 1):
+                    seqs = F.drop_sequences(n, n)
+                    for seq in (seqs[:2] if tier == 'quick' else seqs):
+                        if ('h', tgt) in seq[:when]:
+                            continue
+                        ops = F.build_ops(n, e, extras=True)
+                        ops += F.drop_ops(seq[:when])
+                        ops += mk(H(tgt))
+                        ops += F.drop_ops(seq[when:])
+                        items.append(dict(prop=prop, name='%s %s on %d after %d drops, drops=%s' % (nm, an, tgt, when, ''.join('%s%d' % q for q in seq)),
+                                          script={'ops': ops}, sym=True, oracles=set(oracles), opts=dict(opts or {}), layouts=std_layouts(n, tier, seed)[:2]))
     return items
